@@ -199,7 +199,7 @@ func c16Run(r *core.Run) {
 	w := world.NewWorld(t, world.Cfg{Processor: 1, AuthLen: []int{0, -1, 5, 200}[t.Draw(4)], ExtraBytes: t.Draw(2) * 11})
 	rawHonest := w.Quote.Bytes()
 	raw := poisoned(rawHonest, 64)
-	form := t.Draw(3)
+	form := t.Draw(4)
 	var msg *pb.QuoteV4
 	switch form {
 	case 0: // parsed from bytes by the code under test
@@ -210,6 +210,11 @@ func c16Run(r *core.Run) {
 		msg = m
 	case 1: // built field by field, poisoned spare capacity behind every bytes field
 		msg = w.Quote.Proto(16 + t.Draw(64))
+	case 3: // built field by field with the redundant size fields (signed data size, certification data size) unset
+		msg = w.Quote.Proto(8)
+		msg.SignedDataSize = 0
+		msg.SignedData.CertificationData.Size = 0
+		r.Probe("message_with_unset_size_fields")
 	default: // decoded from protobuf wire form
 		b, err := proto.Marshal(w.Quote.Proto(0))
 		if err != nil {
@@ -516,6 +521,6 @@ func init() {
 		},
 		Run:       c16Run,
 		Serial:    true, // the yield hook of the instrumented copy is process-global
-		MustProbe: []string{"switch_at_instrumented_yield", "switch_inside_verifyHash256", "aliasing_checked"},
+		MustProbe: []string{"switch_at_instrumented_yield", "switch_inside_verifyHash256", "aliasing_checked", "message_with_unset_size_fields"},
 	})
 }
